@@ -5,6 +5,7 @@ import (
 	"go/token"
 	"go/types"
 	"sort"
+	"strings"
 
 	"golang.org/x/tools/go/cfg"
 	"golang.org/x/tools/go/packages"
@@ -805,6 +806,7 @@ func c09Dimensions(c *core.Ctx, lim *c09limiter, fns []*c09fn) {
 		})
 		subjects += len(loops)
 		cons := fn.name + "|dimensions are combined without arithmetic accumulation"
+		influences := c09influencing(f)
 		var badAt ast.Node
 		badVar := ""
 		for _, l := range loops {
@@ -827,6 +829,9 @@ func c09Dimensions(c *core.Ctx, lim *c09limiter, fns []*c09fn) {
 				}
 				if l.Pos() <= v.Pos() && v.Pos() < l.End() {
 					return nil // declared by / inside the loop: fresh in every iteration (or the loop counter)
+				}
+				if !influences[v] {
+					return nil // feeds no decision, result or limiter state (e.g. a total kept for a log line)
 				}
 				return v
 			}
@@ -884,4 +889,85 @@ func c09Dimensions(c *core.Ctx, lim *c09limiter, fns []*c09fn) {
 			"the loop over the limiter's dimensions accumulates into `"+badVar+"`, which lives across the iterations: the value used for one dimension includes the contributions of the dimensions visited before (sum instead of maximum) — e.g. the release slot of a queued arrival is pushed (depth of dim 0 + depth of dim 1 + …) periods ahead, so it is admitted with a wait above timeoutDuration and released in a period that later arrivals fill as well")
 	}
 	c.RequireCount("R-C09-7", "loops over the dimensions in multi-dimensional acquire functions", subjects, 1)
+}
+
+// c09influencing returns the locals of f whose value can reach a decision of the function: a branch condition, a
+// returned value, a store into a field / element (limiter state) or an argument of a call other than a logger's — directly
+// or through assignments to other such locals (a backward closure over the assignments of the body; flow-insensitive).
+func c09influencing(f *flow.Func) map[types.Object]bool {
+	in := map[types.Object]bool{}
+	changed := false
+	add := func(e ast.Node) {
+		if e == nil {
+			return
+		}
+		ast.Inspect(e, func(n ast.Node) bool {
+			if _, ok := n.(*ast.FuncLit); ok {
+				return false
+			}
+			if id, ok := n.(*ast.Ident); ok {
+				if v, ok := c09obj(f, id).(*types.Var); ok && !v.IsField() && !in[v] {
+					in[v] = true
+					changed = true
+				}
+			}
+			return true
+		})
+	}
+	isLog := func(call *ast.CallExpr) bool {
+		fnObj, _ := f.Callee(call).(*types.Func)
+		return fnObj != nil && fnObj.Pkg() != nil && (strings.HasSuffix(fnObj.Pkg().Path(), "/logger") || fnObj.Pkg().Path() == "log" || fnObj.Pkg().Path() == "fmt")
+	}
+	for {
+		changed = false
+		ast.Inspect(f.Body, func(n ast.Node) bool {
+			switch s := n.(type) {
+			case *ast.IfStmt:
+				add(s.Cond)
+			case *ast.ForStmt:
+				add(s.Cond)
+			case *ast.SwitchStmt:
+				add(s.Tag)
+			case *ast.CaseClause:
+				for _, e := range s.List {
+					add(e)
+				}
+			case *ast.ReturnStmt:
+				for _, e := range s.Results {
+					add(e)
+				}
+			case *ast.CallExpr:
+				if !isLog(s) {
+					for _, a := range s.Args {
+						add(a)
+					}
+				}
+			case *ast.IncDecStmt:
+				if _, ok := ast.Unparen(s.X).(*ast.Ident); !ok {
+					add(s.X)
+				}
+			case *ast.AssignStmt:
+				for i, lh := range s.Lhs {
+					var rhs ast.Expr
+					if len(s.Lhs) == len(s.Rhs) {
+						rhs = s.Rhs[i]
+					} else if len(s.Rhs) == 1 {
+						rhs = s.Rhs[0]
+					}
+					if id, ok := ast.Unparen(lh).(*ast.Ident); ok {
+						if v, ok := c09obj(f, id).(*types.Var); ok && in[v] {
+							add(rhs)
+						}
+						continue
+					}
+					add(lh) // store into a field / element: the index and the stored value matter
+					add(rhs)
+				}
+			}
+			return true
+		})
+		if !changed {
+			return in
+		}
+	}
 }
